@@ -114,12 +114,15 @@ fn check_case(c: &Case, out: &mut Out) -> Option<Box<QRCode>> {
     let mut n_data = 0usize;
     let mut bad_ty = None;
     let mut bad_fn = None;
+    let mut bad_ver = None;
     for y in 0..n { for x in 0..n {
         let r = region(v, y, x);
         if ty(&q, y, x) != r as u8 && bad_ty.is_none() { bad_ty = Some((y, x, ty(&q, y, x), r)); }
         if ty(&q, y, x) == 0 { n_data += 1; }
-        if r != Region::Data && r != Region::Format && val(&q, y, x) != function_dark(v, y, x) && bad_fn.is_none() { bad_fn = Some((y, x, r)); }
+        if r != Region::Data && r != Region::Format && r != Region::Version && val(&q, y, x) != function_dark(v, y, x) && bad_fn.is_none() { bad_fn = Some((y, x, r)); }
+        if r == Region::Version && val(&q, y, x) != function_dark(v, y, x) && bad_ver.is_none() { bad_ver = Some((y, x)); }
     } }
+    if let Some((y, x)) = bad_ver { out.fail("C04", "version_information", c, format!("version information module ({},{}) is not the bit of the BCH(18,6) word of version {}", y, x, v + 1)); }
     if let Some((y, x, t, r)) = bad_ty { out.fail("C15", "label", c, format!("module ({},{}) labelled {} expected {:?}", y, x, t, r)); }
     if n_data != raw_modules(v) { out.fail("C15", "data_label_count", c, format!("{} modules labelled data, expected {}", n_data, raw_modules(v))); }
     if let Some((y, x, r)) = bad_fn { out.fail("C03", "function_value", c, format!("function module ({},{}) of region {:?} has the wrong value", y, x, r)); }
@@ -149,6 +152,20 @@ fn check_case(c: &Case, out: &mut Out) -> Option<Box<QRCode>> {
     let data_read: Vec<u8> = dr.iter().flatten().cloned().collect();
     let consistent = dr.iter().zip(er.iter()).all(|(d, e)| &rs_remainder(d, ec) == e);
     let data_ok = data_read == exp_data;
+    if !data_ok && !consistent {
+        // does the symbol read correctly under ANOTHER mask than the one it reports?  then the format information lies
+        for m2 in 0..8 {
+            if m2 == m { continue; }
+            let bits2: Vec<bool> = zz.iter().map(|&(y, x)| val(&q, y, x) ^ mask_bit(m2, y, x)).collect();
+            let cw2: Vec<u8> = (0..tc).map(|k| (0..8).fold(0u8, |a, i| (a << 1) | bits2[8 * k + i] as u8)).collect();
+            let (d2, _) = deinterleave(&cw2, v, el);
+            let dr2: Vec<u8> = d2.iter().flatten().cloned().collect();
+            if dr2 == exp_data {
+                out.fail("C04", "reported_mask_is_applied_mask", c, format!("format information and the mask field say mask {}, but the data modules are masked with pattern {}", m, m2));
+                break;
+            }
+        }
+    }
     if !data_ok {
         let k = (0..exp_data.len()).find(|&k| data_read[k] != exp_data[k]).unwrap();
         if consistent {
